@@ -74,6 +74,9 @@ def sc_adversary(rng, n, t, quick):
     for v in range(0, min(2, n)):
         for rnd in (1, 2, 3):
             steps.append({"op": "adv", "node": v, "kind": "valid", "as": (bad[0] if bad else (v + 1) % n), "round": rnd})
+    # validly signed partials for rounds near 2^63 / 2^64 (signed arithmetic on the round must not let them through)
+    for rnd in (2 ** 63 + 5, 2 ** 64 - 1, 2 ** 63 - 1, 2 ** 32 + 1):
+        steps.append({"op": "adv", "node": 0, "kind": "valid", "as": (bad[0] if bad else 1 % n), "round": rnd})
     steps += _round_steps(0, "random", "r1", live=True)
     for i in bad:
         steps.append({"op": "stop", "node": i})
@@ -261,6 +264,34 @@ def sc_synced_then_needed(rng, n, t, k):
         if r >= 3:
             steps.append({"op": "quiesce", "label": "live-needed-%d" % r})
     return {"name": "syncedneeded-%d-%d-%d" % (n, t, k), "n": n, "t": t, "steps": steps}
+
+
+def sc_stale_catchup(rng, n, t, k):
+    """a node alone (the others are down) aggregates an old round from late partials while its clock is one round
+    further: the catch-up timer is armed on top of that old head.  While the timer sleeps the node receives the
+    partials of the following rounds (the rest of the network is ahead) and its head passes the round of its own
+    clock.  When the timer fires, the partial it releases must still not be for a round beyond the node's clock."""
+    steps = [{"op": "startall"}]
+    steps += _round_steps(0, "random", "r1", live=True) + _round_steps(10, "random", "r2", live=True)
+    v = rng.randrange(n)
+    others = [i for i in range(n) if i != v]
+    for i in others:
+        steps.append({"op": "stop", "node": i})
+    steps += [{"op": "advance", "node": v, "to": 20}, {"op": "advance", "node": v, "to": 30}]     # clock in round 4, head 2
+    for i in others[:t - 1]:
+        steps.append({"op": "adv", "node": v, "kind": "valid", "as": i, "round": 3})          # own + t-1 others: round 3 aggregated, timer armed (3 < 4)
+    for rnd in (4, 5):
+        for i in others[:t]:
+            steps.append({"op": "adv", "node": v, "kind": "valid", "as": i, "round": rnd})    # head passes the clock's round
+    for c in (32, 34, 36):
+        steps.append({"op": "advance", "node": v, "to": c})                                   # the timer fires
+    for i in others:
+        steps.append({"op": "start", "node": i, "mode": "catchup"})
+    for r in (4, 5, 6):
+        steps += _round_steps(10 * r, "random", "after-r%d" % (r + 1))
+        steps += [{"op": "advance", "node": -1, "to": 10 * r + 4}, {"op": "deliverall", "order": "random"}]
+    steps.append({"op": "quiesce", "label": "live-after-stale-catchup"})
+    return {"name": "stalecatchup-%d-%d-%d" % (n, t, k), "n": n, "t": t, "steps": steps}
 
 
 def sc_allbehind(rng, n, t, k):
@@ -525,6 +556,10 @@ def scenarios_for(ctx, prop):
         for k in range(2 if q else 6):
             n, t = rng.choice([(3, 2), (4, 3), (5, 3)])
             out.append(sc_restart_midround(rng, n, t, k))
+    if prop == "C04":
+        for k in range(1 if q else 4):
+            n, t = rng.choice([(3, 2), (4, 3), (5, 3)])
+            out.append(sc_stale_catchup(rng, n, t, k))
     if prop == "C05":
         for k in range(1 if q else 5):
             n, t = rng.choice([(4, 3), (5, 3), (5, 4)])
